@@ -344,8 +344,6 @@ type fixtures struct {
 	srcHash string // snapshot hash of the pristine src layout
 	badTags map[string]string
 	foreign map[string]bool // digests of layers that carry urls in some fixture
-	// sha512 digest of every fixture blob and of its decompressed form -> description (diagnosis only)
-	rehashed map[string]string
 }
 
 func histAB(ids ...string) []fxH {
@@ -443,17 +441,6 @@ func buildFixtures(dir string) *fixtures {
 	l.finish()
 	fx.srcHash = hashDir(l.dir)
 	fx.foreign = l.foreign
-	fx.rehashed = map[string]string{}
-	ents, _ := os.ReadDir(filepath.Join(l.dir, "blobs", "sha256"))
-	for _, e := range ents {
-		b, _ := os.ReadFile(filepath.Join(l.dir, "blobs", "sha256", e.Name()))
-		fx.rehashed[digestOf("sha512", b)] = "sha512 digest of source blob sha256:" + e.Name()[:8]
-		if k := sniff(b); k != "none" {
-			if uc, err := decompress(k, b); err == nil {
-				fx.rehashed[digestOf("sha512", uc)] = "sha512 digest of the decompressed source blob sha256:" + e.Name()[:8]
-			}
-		}
-	}
 
 	// ---- malformed images for the auditor's self-test -------------------------------------------
 	b := newFxLayout(filepath.Join(dir, "bad"))
